@@ -258,7 +258,7 @@ def run_rpc_lists(ctx, prop="C13"):
     """C13 through GroupMetadataList / GroupMessageList of an in-process service (prop="C19": only "no panic")"""
     ov = ctx.overlay({PKG: ["vf_rpclist_verif_test.go", "vf_foreign_verif_test.go"]})
     # (local metadata payloads, local messages, writes of a second member's device delivered afterwards: multi-head logs)
-    sizes = [(0, 0, 0), (2, 3, 0), (2, 2, 2)] if ctx.tier == "quick" else [(0, 0, 0), (1, 1, 0), (3, 4, 0), (5, 6, 0), (2, 2, 2), (1, 3, 3), (0, 0, 2)]
+    sizes = [(0, 0, 0), (1, 2, 0), (1, 1, 2)] if ctx.tier == "quick" else [(0, 0, 0), (1, 1, 0), (3, 4, 0), (5, 6, 0), (2, 2, 2), (1, 3, 3), (0, 0, 2)]
     scripts = [{"id": i, "cfg": {"nmeta": a, "nmsg": b, "foreign": f}, "steps": []} for i, (a, b, f) in enumerate(sizes)]
     events, _ = vf.run_driver(ctx, PKG, "^TestVerifRPCList$", ov, scripts, "rpclist", timeout=2400)
     acc, rejects = vf.validate_blocks(ctx, MON, events, "rpclist", consts={"Prop": '"%s"' % prop})
